@@ -1,6 +1,8 @@
 import XfemmVerif.Model.PostInt
 import XfemmVerif.Model.PostIntE
 import XfemmVerif.Model.PostIntH
+import XfemmVerif.Model.PostIntM
+import XfemmVerif.Model.Magnetics
 import XfemmVerif.Lemmas.ComplexField
 import Mathlib.Tactic.FieldSimp
 import Mathlib.Tactic.Positivity
@@ -209,5 +211,78 @@ theorem average_times_volume (typ : Nat) (h : typ = 0 ∨ typ = 3 ∨ typ = 4) (
   exact Cx.div_mul_cancel' z vol hv
 
 end HeatIntegrands
+
+/-! ### the magnetics integrands of a planar magnetostatic solution (`Model/PostIntM.lean`) -/
+section MagneticsIntegrands
+open XfemmVerif XfemmVerif.PostIntE XfemmVerif.PostIntM XfemmVerif.Magnetics
+set_option linter.unusedSectionVars false
+variable {K : Type} [Field K] [LinearOrder K] [IsStrictOrderedRing K] [AbsGt K] [LawfulAbsGt K]
+
+/-- **the quadrature of `A·J` is a symmetric bilinear form** in the two nodal functions -/
+theorem plnInt_symm (a : K) (u v : Fin 3 → Cx K) : plnInt a u v = plnInt a v u := by
+  have h2 : ∀ z : Cx K, Cx.rmul (2 : K) z = Cx.ofReal 2 * z := fun z => Cx.rmul_eq 2 z
+  simp only [plnInt, h2, Cx.rmul_eq, Cx.divR_eq]
+  ring
+
+/-- for a density that is constant over the element it is the exact integral `a · J · (u₀ + u₁ + u₂)/3` -/
+theorem plnInt_const (a : K) (u : Fin 3 → Cx K) (c : Cx K) :
+    plnInt a u (fun _ => c) = Cx.ofReal a * c * (u 0 + u 1 + u 2) / Cx.ofReal 3 := by
+  have h2 : ∀ z : Cx K, Cx.rmul (2 : K) z = Cx.ofReal 2 * z := fun z => Cx.rmul_eq 2 z
+  have e12 : (Cx.ofReal (12 : K) : Cx K) = 12 := by
+    have := Cx.ofReal_natCast (K := K) 12; simpa using this
+  have e3 : (Cx.ofReal (3 : K) : Cx K) = 3 := by
+    have := Cx.ofReal_natCast (K := K) 3; simpa using this
+  have e2 : (Cx.ofReal (2 : K) : Cx K) = 2 := Cx.ofReal_two
+  have h12 : (12 : Cx K) ≠ 0 := by rw [← e12]; exact Cx.ofReal_ne_zero (by norm_num)
+  have h3 : (3 : Cx K) ≠ 0 := by rw [← e3]; exact Cx.ofReal_ne_zero (by norm_num)
+  simp only [plnInt, h2, Cx.rmul_eq, Cx.divR_eq, e12, e3, e2]
+  field_simp
+  ring
+
+/-- **the energy density of a linear material is `½ B·H` with the permeabilities the solvers use** (`lamMu`): in-plane laminations
+    for any iron, on-edge laminations for isotropic iron (the solvers take one permeability for both directions) -/
+theorem doEnergy_eq_half_BH (muo : K) (m : MMat K) (b1 b2 : K) (hmuo : muo ≠ 0)
+    (hiso : m.lamType = 1 ∨ m.lamType = 2 → m.mux = m.muy) (hmu : m.mux ≠ 0) (hmuy : m.muy ≠ 0)
+    (hden : m.lamFill + m.mux * (1 - m.lamFill) ≠ 0) (ht : m.lamType ≤ 2) :
+    doEnergy muo m b1 b2 =
+      (b1 * (b1 / ((lamMu m.lamType m.lamFill m.mux m.muy).1 * muo)) +
+        b2 * (b2 / ((lamMu m.lamType m.lamFill m.mux m.muy).2 * muo))) / 2 := by
+  rcases m with ⟨mux, muy, lt, t, ld, J, cd⟩
+  simp only at hiso hmu hmuy hden ht ⊢
+  have hlt : lt = 0 ∨ lt = 1 ∨ lt = 2 := by omega
+  rcases hlt with rfl | rfl | rfl
+  · simp only [doEnergy, lamMu]
+    simp
+    ring_nf
+  · have e := hiso (Or.inl rfl); subst e
+    have e1 : (1 : K) + t * (mux - 1) = t * mux + (1 - t) := by ring
+    simp only [doEnergy, lamMu]
+    simp
+    field_simp
+    rw [e1]
+  · have e := hiso (Or.inr rfl); subst e
+    have e1 : (1 : K) + t * (mux - 1) = t * mux + (1 - t) := by ring
+    simp only [doEnergy, lamMu]
+    simp
+    field_simp
+    rw [e1]
+
+/-- the element flux density is the curl of an affine potential `A = a + b x + c y`: `B = (c, −b)/lc` -/
+theorem elemB_affine (lc a b c : K) (t : Tri K) (hlc : lc ≠ 0)
+    (hda : (t.y1 - t.y2) * (t.x0 - t.x2) - (t.y2 - t.y0) * (t.x2 - t.x1) ≠ 0)
+    (h0 : t.v0 = a + b * t.x0 + c * t.y0) (h1 : t.v1 = a + b * t.x1 + c * t.y1) (h2 : t.v2 = a + b * t.x2 + c * t.y2) :
+    elemB lc t = (c / lc, -b / lc) := by
+  simp only [elemB, h0, h1, h2, Prod.mk.injEq]
+  set da := (t.y1 - t.y2) * (t.x0 - t.x2) - (t.y2 - t.y0) * (t.x2 - t.x1) with hdadef
+  have hd : da * lc ≠ 0 := mul_ne_zero hda hlc
+  constructor
+  · have : 0 + (a + b * t.x0 + c * t.y0) * (t.x2 - t.x1) / (da * lc) + (a + b * t.x1 + c * t.y1) * (t.x0 - t.x2) / (da * lc) +
+        (a + b * t.x2 + c * t.y2) * (t.x1 - t.x0) / (da * lc) = (c * da) / (da * lc) := by rw [hdadef]; ring
+    rw [this, mul_comm c da, mul_div_mul_left _ _ hda]
+  · have : 0 - (a + b * t.x0 + c * t.y0) * (t.y1 - t.y2) / (da * lc) - (a + b * t.x1 + c * t.y1) * (t.y2 - t.y0) / (da * lc) -
+        (a + b * t.x2 + c * t.y2) * (t.y0 - t.y1) / (da * lc) = -(b * da) / (da * lc) := by rw [hdadef]; ring
+    rw [this, neg_div, neg_div, mul_comm b da, mul_div_mul_left _ _ hda]
+
+end MagneticsIntegrands
 
 end XfemmVerif.C13
